@@ -471,6 +471,8 @@ class Interp:
                 raise MemSafety("NULL / uninitialised pointer dereference (*p)")
             if isinstance(p, Ref):
                 return p
+            if isinstance(p, FnPtr):
+                return Ref(lambda: p, None)       # *fp designates the function itself
             raise Unsupported("dereference of non-reference %r" % (p,))
         if k == "ArraySubscriptExpr":
             base = self.eval(n["inner"][0], env)
